@@ -225,7 +225,11 @@ func (h *hist) run(pre func(h *hist), post func(h *hist)) {
 			part := newLogOpt(h.api, h.writerOf(h.src), &ipfslog.LogOptions{SortFn: h.sortFn(), IO: h.io(), Entries: orderedMapOf(old)})
 			_, h.err = h.logs[h.dst].Join(part, -1)
 		case opFork:
-			h.logs[h.dst] = newLogOpt(h.api, h.writerOf(h.dst), &ipfslog.LogOptions{SortFn: h.sortFn(), IO: h.io(), Entries: h.logs[h.src].GetEntries(), AccessController: h.acs[h.dst]})
+			// two logs are opened from one and the same snapshot value (an application keeping the entries it was
+			// given and opening the log twice): opening a log does not modify the entries it is given
+			snap := h.logs[h.src].GetEntries()
+			newLogOpt(h.api, h.writerOf(h.dst), &ipfslog.LogOptions{SortFn: h.sortFn(), IO: h.io(), Entries: snap})
+			h.logs[h.dst] = newLogOpt(h.api, h.writerOf(h.dst), &ipfslog.LogOptions{SortFn: h.sortFn(), IO: h.io(), Entries: snap, AccessController: h.acs[h.dst]})
 		case opSetID:
 			h.cur[h.dst] = (h.cur[h.dst] + 1) % h.cfg.W
 			h.logs[h.dst].SetIdentity(h.ids[h.cur[h.dst]])
